@@ -2,6 +2,7 @@ import Pyunicorn.Model.Proto
 import Pyunicorn.Model.Repr
 import Pyunicorn.Model.ReprAttrs
 import Pyunicorn.Model.ReprEdges
+import Pyunicorn.Model.ReprSplit
 /-! Line-protocol driver for C05 (see harness/c05.py for the request grammar). -/
 open Pyunicorn Pyunicorn.Proto Pyunicorn.Repr
 
@@ -140,6 +141,12 @@ def applyOp (cosLat : List Rat) (_wtype : Nat) (r : Except Err NetA) (op : Strin
   | some o => stepL id x o       -- `set_link_attribute` through the per-edge loop
   | none =>
   let gml := gmlStoreA stripUnderscores
+  -- `net = net.splitted_copy(node, proportion)`: `split=<node>_<num>_<e>`, proportion `num / 2^e`
+  if op.startsWith "split=" then
+    match opArgs ((op.splitOn "=").getD 1 "") with
+    | [node, num, e] => splittedCopyA x node ((num : Rat) / pow2 e)
+    | _ => .error .valueError
+  else
   match op with
   | "saveload_gml" => stepA gml x .reload
   | "loadspatial_gml" => loadViaAdjacencyA (gml (saveA x).2) none
